@@ -8,6 +8,7 @@
         database keeps accepting statements.
 """
 import json
+import re
 
 from .common import *  # noqa: F401,F403
 
@@ -209,6 +210,18 @@ def analyse(R, h, out):
     layout = {}
     skipc = False
     klass_of = lambda: "KF_C03_view_shifts_table_ids" if view_then_table else None
+    if not isinstance(out, list):
+        # the whole run aborted (a panic outside a statement, e.g. inside a reopen): classify by what the history contains
+        sv, vt = False, False
+        for sc in h["script"]:
+            if sc[0] == "view":
+                sv = True
+            elif sc[0] == "create" and sv:
+                vt = True
+            elif sc[0] == "reopen" and not vt:
+                sv = False
+        R.property_fails("KF_C03_view_shifts_table_ids" if vt else None, f"C03 the history aborted: {json.dumps(out)[:220]}", replay)
+        return None
     for i, (sc, st) in enumerate(zip(h["script"], h["steps"])):
         if i >= len(out) if isinstance(out, list) else True:
             last = out[-1] if isinstance(out, list) and out else out
@@ -295,6 +308,60 @@ def analyse(R, h, out):
                 R.property_fails(klass_of(), f"C03 step {i}: manifest.json unreadable: {json.dumps(o)[:160]}", replay)
                 return None if skipc else csteps
             recs = parse_log(o["read"])
+            if p[0] == "reopen":
+                # a compactor pass can run while the database shuts down and another right after it is opened; the
+                # intermediate row-set is only visible in the file: first transaction = the compacted manifest written at
+                # boot (what was live then), later transactions = what the pass after the boot committed
+                frames, cur = [], None
+                for r in recs:
+                    if r == "RBegin":
+                        cur = []
+                    elif r == "REnd":
+                        if cur is not None:
+                            frames.append(cur)
+                        cur = None
+                    elif cur is not None:
+                        cur.append(r)
+                evs = []
+                boot = {}
+                for r in (frames[0] if frames else []):
+                    m = re.match(r"ROp \(MAddRS (\d+) (\d+)\)", r)
+                    if m:
+                        boot.setdefault(int(m.group(1)), set()).add(int(m.group(2)))
+                for name in sorted(prev_layout):
+                    if name not in old_ids:
+                        continue
+                    tid = old_ids[name]
+                    pre_live = set(prev_layout[name])
+                    bl = boot.get(tid, set())
+                    gone1, new1 = sorted(pre_live - bl), sorted(bl - pre_live)
+                    if gone1 or new1:
+                        if len(new1) > 1:
+                            skipc = True
+                        else:
+                            evs.append(f"XStmt (SCompact {tid} {clist(map(str, gone1))} {copt(new1[0] if new1 else None, str)})")
+                evs.append("XReopen")
+                for fr in frames[1:]:
+                    adds = [re.match(r"ROp \(MAddRS (\d+) (\d+)\)", r) for r in fr]
+                    dels = [re.match(r"ROp \(MDelRS (\d+) (\d+)\)", r) for r in fr]
+                    adds = [(int(m.group(1)), int(m.group(2))) for m in adds if m]
+                    dels = [(int(m.group(1)), int(m.group(2))) for m in dels if m]
+                    if dels:
+                        tid = dels[0][0]
+                        evs.append(f"XStmt (SCompact {tid} {clist(str(r) for _, r in dels)} {copt(adds[0][1] if adds else None, str)})")
+                        R.coverage["compactions"] = R.coverage.get("compactions", 0) + 1
+            # several tables compacted in one pass: the order of their commits is the order of their transactions in the file
+            comp = [e for e in evs if e.startswith("XStmt (SCompact")]
+            if len(comp) > 1 and p[0] != "reopen":
+                def pos(e):
+                    m = re.match(r"XStmt \(SCompact (\d+) \[(\d+)", e)
+                    if not m:
+                        return 10 ** 9
+                    needle = f"ROp (MDelRS {m.group(1)} {m.group(2)})"
+                    idx = [k for k, r in enumerate(recs) if r == needle]
+                    return idx[-1] if idx else 10 ** 9
+                rest = [e for e in evs if not e.startswith("XStmt (SCompact")]
+                evs = rest + sorted(comp, key=pos)
             tabs_t = clist(f"({t}, {NAMES.index(nm) + 1})" for nm, t in sorted(ids.items(), key=lambda x: x[1]))
             rs_t = clist(f"({ids[nm]}, {r})" for nm in sorted(layout) for r in sorted(layout[nm]))
             dv_t = clist(f"({ids[nm]}, {d}, {r})" for nm in sorted(layout) for r in sorted(layout[nm]) for d in layout[nm][r])
@@ -332,14 +399,14 @@ def run(R, only=None):
         cs = analyse(R, h, o)
         if cs:
             terms.append(f"mk_case {clist(cs)}")
-            usable.append(h)
+            usable.append((h, o))
     failing = coq_eval("C03", HEADER, terms, per_file=8)
     names = {1: "the model accepts the statement / boots where the engine did", 2: "catalog (table ids and names) = model", 3: "live row-sets = model",
              4: "live delete vectors = model", 5: "manifest.json transactions = model log", 6: "model boot of the real manifest.json = observed state"}
     if failing:
         i = sorted(failing)[0]
         c = failing[i][0]
-        R.correspondence_broken(f"C03 observation {c // 10}: {names.get(c % 10, c)}", json.dumps({"history": usable[i]}))
+        R.correspondence_broken(f"C03 observation {c // 10}: {names.get(c % 10, c)}", json.dumps({"history": usable[i][0], "observed": usable[i][1]}))
     R.coverage.update({
         "evaluations": len(terms), "distinct_nontrivial": sum(1 for h in hs if sum(1 for s in h["script"] if s[0] == "reopen") >= 2),
         "rule": "histories of 5-28 statements over CREATE / DROP TABLE (4 names, 5 schemas incl. VARCHAR, DOUBLE, BOOLEAN, DATE, DECIMAL, keyed or not), "
